@@ -325,8 +325,9 @@ func (w SocialWrappedCallbacks) update(c context.Context, a vocab.ActivityStream
 		for k, v := range newM {
 			m[k] = v
 		}
-		// Delete top-level values where the raw Activity had nils.
-		for k, v := range w.rawActivity {
+		// Delete top-level values where the raw object in the Activity had
+		// nils.
+		for k, v := range rawObjectAt(w.rawActivity, idx) {
 			if _, ok := m[k]; v == nil && ok {
 				delete(m, k)
 			}
@@ -526,6 +527,24 @@ func (w SocialWrappedCallbacks) block(c context.Context, a vocab.ActivityStreams
 	}
 	if w.Block != nil {
 		return w.Block(c, a)
+	}
+	return nil
+}
+
+// rawObjectAt returns the raw JSON of the idx-th value of the 'object'
+// property of the raw activity, or nil if it is not an embedded object.
+func rawObjectAt(rawActivity map[string]interface{}, idx int) map[string]interface{} {
+	switch o := rawActivity["object"].(type) {
+	case map[string]interface{}:
+		if idx == 0 {
+			return o
+		}
+	case []interface{}:
+		if idx < len(o) {
+			if m, ok := o[idx].(map[string]interface{}); ok {
+				return m
+			}
+		}
 	}
 	return nil
 }
